@@ -58,6 +58,8 @@ REQUIRED_THEOREMS = ["Gv.Props.C03." + n for n in [
     "nexus_counterexample_empty_command", "nexus_counterexample_second_data_block",
     # the raw input, ALL byte strings (rune reader model Model/Fmt/Utf8.lean, Proofs/Utf8Norm.lean)
     "fasta_parseBytes_ascii", "fasta_outcome_bytes_partial", "fasta_outcome_bytes",
+    # the rune lexer of FASTA (Model/Fmt/FastaRunes.lean, mirrors lexer.go on ReadRune / WriteRune) = the byte lexer on Utf8.norm
+    "fasta_rune_scan", "fasta_rune_lexer",
     "phylip_parseBytes_ascii", "phylip_header_reading_raw", "phylip_outcome_bytes", "phylip_multi_outcome_bytes", "partition_outcome_bytes",
     "clustal_outcome_bytes", "stockholm_outcome_bytes", "nexus_outcome_bytes", "parseBytes_ascii_claim"]]
 TRUSTED = ["bufio.Reader buffering (ReadRune = utf8.DecodeRune on the remaining input; the decoding itself is modelled in "
@@ -120,9 +122,12 @@ PARTIAL = [
     "bytes >= 128: the lexers read runes; Model/Fmt/Utf8.lean models ReadRune (utf8.DecodeRune: ill-formed byte = U+FFFD of "
     "width 1) and WriteRune, every format model is defined on the raw input through it (a byte outside a well-formed "
     "sequence reaches names and residues as EF BF BD: lengths are lengths of the WRITTEN bytes; strict Phylip names are ten "
-    "runes). That the byte lexers on Utf8.norm equal the rune lexers rests on the facts of Proofs/Utf8Norm.lean (rune < 0x80 "
-    "iff ASCII byte, written back as itself; rune >= 0x80 written with bytes >= 0x80 only) and on the correspondence run, not "
-    "on a proved lexer equivalence. The header-consistency clause and the blank-input clause of phylip_outcome_bytes read the RAW "
+    "runes). That the byte lexer on Utf8.norm equals the rune lexer is PROVED for FASTA (Model/Fmt/FastaRunes.lean mirrors "
+    "io/fasta/lexer.go on runes - read / unread / WriteRune; fasta_rune_scan: one Scan, every list of runes; fasta_rune_lexer: "
+    "Fasta.lex (Utf8.norm bs) = the rune lexer's tokens on Utf8.runes bs, all byte strings; Proofs/FastaRunes.lean). For the "
+    "other five lexers it rests on the same facts (Proofs/Utf8Norm.lean: rune < 0x80 iff ASCII byte, written back as itself; "
+    "rune >= 0x80 written with a non-empty run of bytes >= 0x80; every class constant is ASCII) and on the correspondence run, "
+    "not on a proved lexer equivalence. The header-consistency clause and the blank-input clause of phylip_outcome_bytes read the RAW "
     "bytes, as the oracle predicate does (phylip_header_reading_raw: declaredPhylip and blankToNul read the same off "
     "Utf8.norm bs and off bs, for all byte strings - Proofs/Utf8Header.lean). The keyword tests of the Clustal, "
     "Stockholm and Nexus lexer models upper-case rune-wise (Utf8.upperLit: U+0131 / U+017F become I / S, so `clu\u017ftal`, "
